@@ -2,6 +2,7 @@ package c07
 
 import (
 	"fmt"
+	"math/big"
 	"reflect"
 
 	"github.com/NethermindEth/juno/blockchain/networks"
@@ -111,6 +112,13 @@ func drawRec(rt *rapid.T, c *stats.Case, u *gen.Universe, ch *gen.Chain, num uin
 	ver := rapid.SampledFrom(gen.Versions).Draw(rt, "txver")
 	for j := 0; j < ntx; j++ {
 		tx := ch.DrawTx(rt, ver)
+		if rapid.IntRange(0, 11).Draw(rt, "queryBit") == 0 && withQueryBit(tx) {
+			// a version carrying the query bit (2^128 + v) is a value of the stored type like any other
+			gen.SetTxHash(tx, u.Net)
+			if classify {
+				c.Label("transaction-version-with-query-bit")
+			}
+		}
 		kinds[fmt.Sprintf("%T/%s", tx, tx.TxVersion().String())] = true
 		r := ch.DrawReceipt(rt, tx)
 		if rapid.IntRange(0, 5).Draw(rt, "nilres") == 0 {
@@ -342,4 +350,30 @@ func checkRecProbing(rd db.KeyValueReader, r rec, net *networks.Network, outOfRa
 			bad("commitments", "block %d: commitments %s (%v) != %s", num, show(cm), err, show(r.cm))
 		}
 	})
+}
+
+
+// withQueryBit adds 2^128 to the transaction's version (false: the transaction has no version field to change).
+func withQueryBit(tx core.Transaction) bool {
+	var v **core.TransactionVersion
+	switch x := tx.(type) {
+	case *core.InvokeTransaction:
+		v = &x.Version
+	case *core.DeclareTransaction:
+		v = &x.Version
+	case *core.DeployAccountTransaction:
+		v = &x.Version
+	case *core.L1HandlerTransaction:
+		v = &x.Version
+	case *core.DeployTransaction:
+		v = &x.Version
+	}
+	if v == nil || *v == nil || (*v).HasQueryBit() {
+		return false
+	}
+	q := new(felt.Felt).Exp(new(felt.Felt).SetUint64(2), big.NewInt(128))
+	var nv core.TransactionVersion
+	nv.AsFelt().Add((*v).AsFelt(), q)
+	*v = &nv
+	return true
 }
